@@ -156,8 +156,31 @@ Qed.
 Lemma lbind_nilf l : lbind l (fun _ => []) = [].
 Proof. induction l as [|[x y] l IH]; simpl; [reflexivity|assumption]. Qed.
 
+(* decidable equality of formal sums *)
+Definition lin_eqb (a b : lin) : bool :=
+  forallb (fun e => Ceqb (coeff (snd e) a) (coeff (snd e) b)) (a ++ b).
+Lemma coeff_notin k l : (forall e, In e l -> snd e <> k) -> coeff k l = C0.
+Proof.
+  induction l as [|[c x] l IH]; intros H; simpl; [reflexivity|].
+  destruct (keqb_spec k x) as [->|NE]; [exfalso; apply (H (c, x)); [left; reflexivity|reflexivity]|].
+  apply IH. intros e He. apply H. right; assumption.
+Qed.
+Theorem lin_eqb_sound a b : lin_eqb a b = true -> leq a b.
+Proof.
+  unfold lin_eqb. rewrite forallb_forall. intros H k.
+  destruct (existsb (fun e => keqb k (snd e)) (a ++ b)) eqn:E.
+  - apply existsb_exists in E. destruct E as [e [He Hk]]. destruct (keqb_spec k (snd e)) as [->|]; [|discriminate].
+    specialize (H e He). apply Ceqb_eq in H. exact H.
+  - assert (Hn : forall e, In e (a ++ b) -> snd e <> k).
+    { intros e He Hk. assert (existsb (fun e => keqb k (snd e)) (a ++ b) = true).
+      { apply existsb_exists. exists e. split; [assumption|]. subst k. apply keqb_refl. }
+      congruence. }
+    rewrite !coeff_notin; [reflexivity| |]; intros e He; apply Hn; apply in_or_app; [right|left]; assumption.
+Qed.
+
 End Lin.
 Arguments coeff {K} keqb k l.
 Arguments leq {K} keqb a b.
 Arguments lscale {K} c l.
 Arguments lbind {K} l f.
+Arguments lin_eqb {K} keqb a b.
